@@ -32,6 +32,13 @@ def k1(nrec, hard, tier, timeout=280):
              bounds='one context, %d record(s) written by the real log_statement (symbolic timestamps, User or System clock, last record Log or Flush), hard limit %d, ts_now symbolic (incl. "no grace period")' % (nrec, hard),
              what='K1: real _read_and_decode_frontend_queue: records decoded in order into the transit buffer with their timestamp / metadata / logger / flush flag; finish_read for exactly the decoded records; a System-clock record newer than ts_now and everything behind it stays queued, unconsumed; User-clock records are never held back; the hard limit stops the read')
 QUERIES += [k1(2, 8, 'quick'), k1(2, 1, 'quick'), k1(1, 8, 'thorough', 1700), k1(3, 8, 'thorough', 1700), k1(3, 2, 'thorough', 1700)]
+def k4(tier):
+    return Q('K4_all_empty', 'C03_k3.cpp', 'h_k4', defines=['NCTX=2', 'TEBCAP=2'], cuts=TE_CUTS, forbid=K3F,
+             hooks=[r'^_ZN5quill2v96detail13BackendWorker32_dispatch_transit_event_to_sinksE=vh_dispatch', r'^_ZN5quill2v96detail13BackendWorker36_update_active_thread_contexts_cacheEv=vh_update_cache'],
+             models=['m_transit.c', 'm_throw.c', 'm_env.c'], libmodels=['m_string.c', 'm_stl.c'], unwind=24, unwindset=['strlen.0:40'], tier=tier, timeout=280,
+             bounds='2 thread contexts, each with 0..1 record in its bounded queue (written by the real log_statement, queue position at the start or just before the wrap) and 0..1 buffered event (all symbolic)',
+             what='K4: the real _check_frontend_queues_and_cached_transit_events_empty answers true iff no queue of ANY context holds a record and no ring holds an event - the condition for freeing removed loggers and dead thread contexts')
+QUERIES += [k4('quick')]
 QUERIES += [k3(2, 0, 'quick'), k3(1, 1, 'quick'), k3(1, 2, 'quick', wide=0), k3(2, 2, 'thorough', timeout=1700, wide=0), k3(1, 2, 'thorough', timeout=1700)]
 # NOTE: harness/C03_backend.cpp + harness/bk.h (kernels K1/K3 on the real BackendWorker) are kept in the tree but NOT registered:
 # at 1-2 contexts x 1-2 records CBMC needed > 60 GB / did not finish in 10 min (see DESIGN.md section 7).
